@@ -261,7 +261,10 @@ def _compute_interpolation_weights(inputs, keypoints, lengths):
     Interpolation weights tensor of shape: `(batch_size, units, num_keypoints)`.
   """
   # weights always matches the shape of inputs.
-  weights = (inputs - keypoints) / lengths
+  # Softmax can underflow to segments of length exactly 0.0 for extreme
+  # parameters. Guard the division so that an input sitting on such a keypoint
+  # gets weight 0 instead of 0 / 0 = NaN.
+  weights = (inputs - keypoints) / tf.maximum(lengths, 1e-30)
   weights = tf.clip_by_value(weights, 0.0, 1.0)
   return _front_pad(weights, 1.0)
 
